@@ -5,6 +5,23 @@ Correspondence: the Lean `assemble` (folds proved in Pygom/Props/C01.lean to equ
 terms and V·a + pure) against the real pygom objects, symbolically (exact point evaluation, 50 digits)
 and numerically (compiled evaluators).  Direct oracle (no Lean): the harness's own interpreter computes
 Σ rate × net + ODE terms from the abstract process set.
+
+History / input-form / second-instance probes (all fixed by the case JSON, all judged by the same direct oracle).  The
+Lean `assemble` is a pure function of the definition and an evaluator is a function of (definition, parameter values,
+x, t) only, so each of these is a statement of the model which the real code may break without any single call
+compared on its own being wrong:
+ * every result of ode / vMat / eventRateVector / pureOdeVector is KEPT as returned and judged a second time after all
+   later calls (4 points, parameter re-assignment, second instance, deep copy) - returned-array aliasing; ODE = V.a + pure
+   is checked on the kept arrays; afterwards the caller overwrites the arrays it was given and evaluates again;
+ * x as list / tuple / ndarray, float and (integer-valued point, some states exactly 0) int / int32 / int64; t as float /
+   int / numpy scalar; parameters as list / tuple / ndarray / dict / (name, value) pairs (an argument that was written to is a
+   pure side effect: tagged `side-effect:*`, never a violation - only wrong returned values are);
+ * same (x, t) after `model.parameters` was re-assigned, and again after the first values were restored;
+ * a second live instance under the same names (state declaration reversed, parameter declaration permuted, derived
+   parameter redefined, last event entered incrementally), built IN STAGES - constructor, all evaluators called, then one
+   incremental operation at a time with the first instance evaluating in between, every intermediate model judged against
+   the spec read so far - then both instances evaluated alternately, the first one without re-assigning its parameters;
+ * copy.deepcopy of the evaluated model as a third instance with other parameter values; the twin ode_T(t, x).
 """
 import copy
 import json
@@ -14,7 +31,11 @@ import numpy as np
 
 from .. import exprs as E
 from .. import gen
-from .common import (multiset_close, build_both, compare_errors, fl, lean_assemble, mpf, net_oracle, num_close, sym_vs_lean, vec_close, mpf_s)
+from fractions import Fraction
+
+from .. import pymodel
+from .common import (BIG_FORMS, Kept, dtype_probe, as_params, as_t, as_x, build_both, compare_errors, fl, freeze, lean_assemble, mpf, mpf_s, multiset_close,
+                     net_oracle, spec_oracle, sym_vs_lean, vec_close)
 
 PROP = "C01"
 LEAN = {"module": "Pygom.Props.C01",
@@ -25,7 +46,10 @@ BUDGET = {"quick": {"models": 160, "cython": 3, "malformed": 24},
           "thorough": {"models": 3000, "cython": 40, "malformed": 300}}
 RULE = ("random model definitions (1-5 states incl. range-style names, 1-5 params, 0-5 events of 1-3 B/D/T transitions, numeric "
         "and symbolic magnitudes, linear/mass-action/saturating/exponential/time-periodic rates, explicit ODE terms, derived "
-        "parameters, every API route) + a malformed stream; a case is non-trivial when it has >=1 event and a non-zero ODE value")
+        "parameters, every API route) + a malformed stream; per model 4 points (one integer valued with zero states) in varied "
+        "container / dtype forms, all evaluator results kept and re-judged after the later calls, parameter re-assignment and "
+        "restoration at a fixed (x,t), a permuted / redefined second instance built in stages and evaluated alternately, a deep "
+        "copy; a case is non-trivial when it has >=1 event and a non-zero ODE value")
 ASSUMPTIONS = ["sympy parser/subs and lambdify/autowrap are translation-validated per case, not proved",
                "identity of expressions is decided by exact evaluation at 3 random rational points (50 digits)"]
 TRUSTED = ["harness generator, AST printer (exprs.to_str) and interpreter (exprs.ev)", "Lean driver JSON codec"]
@@ -69,14 +93,38 @@ def malform(rng, spec, meta):
     return spec, kind
 
 
+N_POINTS = 4          # three rational points and one integer-valued point (handed over as ints / integer arrays)
+
+
+def probe_for(r, spec, meta, pts):
+    """everything the history / input-form / second-instance probes need, drawn here so that the case JSON fixes it"""
+    from .common import gen_forms
+    nP = len(meta["params"])
+    perm = list(range(nP))
+    r.shuffle(perm)
+    big = gen.rand_point(r, meta, integer=True, big=True)
+    return {"big": {"point": {k: str(v) for k, v in big.items()}, "x": r.choice(BIG_FORMS)},
+            "forms": gen_forms(r, pts, meta["states"]),
+            "reassign_form": r.choice(["list", "tuple", "ndarray", "dict_name", "pairs"]),
+            "sibling": {"state_rev": r.random() < 0.7, "param_perm": perm, "derived_bump": True,
+                        "last_event_incremental": r.random() < 0.5}}
+
+
+def points_for(r, meta, n=N_POINTS):
+    pts = [gen.rand_point(r, meta) for _ in range(n - 1)]
+    pts.append(gen.rand_point(r, meta, integer=True, zeros=True))
+    return pts
+
+
 def make_cases(rng, tier, budget):
     cases = []
     for i in range(budget["models"]):
         r = random.Random(rng.getrandbits(64))
         spec, meta = gen.gen_model(r)
-        pts = [gen.rand_point(r, meta) for _ in range(3)]
+        pts = points_for(r, meta)
         cases.append({"spec": spec, "meta": meta, "points": [{k: str(v) for k, v in p.items()} for p in pts],
-                      "backend": "cython" if i < budget["cython"] else "lambda", "malformed": None})
+                      "backend": "cython" if i < budget["cython"] else "lambda", "malformed": None,
+                      "probe": probe_for(r, spec, meta, pts)})
     for i in range(budget["malformed"]):
         r = random.Random(rng.getrandbits(64))
         spec, meta = gen.gen_model(r, min_events=1)
@@ -90,163 +138,411 @@ def search_cases(rng, tier, budget):
     for i in range(budget["models"] * 3):
         r = random.Random(rng.getrandbits(64))
         spec, meta = gen.gen_model(r)
-        pts = [gen.rand_point(r, meta) for _ in range(2)]
+        pts = points_for(r, meta)
         out.append({"spec": spec, "meta": meta, "points": [{k: str(v) for k, v in p.items()} for p in pts],
-                    "backend": "lambda", "malformed": None})
+                    "backend": "lambda", "malformed": None, "probe": probe_for(r, spec, meta, pts)})
     return out
 
 
-def sibling(spec, meta):
-    """a second definition with the SAME names: derived parameters redefined (if any) and the state list
-    declared in reverse order.  Built in the same process right after the first model, it exposes state that
-    leaks between model instances (module-level caches keyed by strings, shared class attributes)."""
-    import copy
-    s2, m2 = copy.deepcopy(spec), copy.deepcopy(meta)
-    changed = False
-    if s2.get("derived"):
-        s2["derived"][0][1] = E.add(s2["derived"][0][1], E.num(1))
-        changed = True
-    st = s2["state"]
-    if "list" in st and len(st["list"]) >= 2:
-        st["list"] = list(reversed(st["list"]))
-        m2["states"] = gen.expand_decl([x if isinstance(x, str) else x[0] for x in st["list"]])
-        changed = True
-    return (s2, m2) if changed else (None, None)
+EVALUATORS = ("ode", "vMat", "eventRateVector", "pureOdeVector")
 
 
-def run_case(case):
-    r = check_model(case)
-    if case.get("malformed") or r["mismatches"] or r["violations"] or not case.get("points"):
-        return r
-    s2, m2 = sibling(case["spec"], case["meta"])
-    if s2 is None:
-        return r
-    c2 = dict(case, spec=s2, meta=m2, points=case["points"][:1])
-    r2 = check_model(c2)
-    r["tags"].append("sibling_checked")
-    for v in r2["violations"]:
-        v = dict(v); v["what"] = "second model with the same names (built after the first): " + v["what"]
-        v["signature"] = "sibling:" + v.get("signature", "")
-        r["violations"].append(v)
-    for m_ in r2["mismatches"]:
-        r["mismatches"].append(dict(m_, what="sibling:" + m_["what"]))
-    if r2["violations"] or r2["mismatches"]:
-        r["sample"] = {"first": case["spec"], "second": s2}
-    return r
+class Session(object):
+    """One live model instance together with its Lean response, its direct oracle and every result it has handed
+    out so far.  `step` = set the parameters, call every evaluator C01 observes at one point, judge private copies
+    of the results at once; `finish` = judge the KEPT result objects after everything else has happened."""
 
-
-def check_model(case):
-    from fractions import Fraction
-    spec, meta = case["spec"], case["meta"]
-    tags, mism, viol = [], [], []
-    lr, model, perr, stage = build_both(spec, backend=case.get("backend", "lambda"))
-    mism += compare_errors(lr, perr, stage)
-    tags.append("malformed:%s" % case["malformed"] if case.get("malformed") else "wellformed")
-    if perr is not None or lr.get("err") is not None:
-        tags.append("rejected:%s" % (perr or lr.get("err")))
-        if not case.get("malformed") and perr is not None:
-            # a well-formed definition the real code rejects: the property cannot hold for it
-            viol.append({"what": "well-formed model definition rejected with %s at %s" % (perr, stage),
-                         "signature": "reject:%s:%s:%s" % (perr, stage, ",".join(sorted(set(meta["routes"])))),
-                         "detail": json.dumps(spec)[:1500]})
-        return {"nontrivial": case.get("malformed") is not None, "mismatches": mism, "violations": viol, "tags": tags,
-                "sample": {"malformed": case.get("malformed"), "python": perr, "lean": lr.get("err")}}
-    if case.get("malformed"):
-        tags.append("malformed_accepted")
-        return {"nontrivial": True, "mismatches": mism, "violations": viol, "tags": tags}
-
-    states = [str(s) for s in model.state_list]
-    params = [str(p) for p in model.param_list]
-    if states != lr["states"] or params != lr["params"]:
-        mism.append({"what": "names", "detail": "python %s %s lean %s %s" % (states, params, lr["states"], lr["params"])})
-        return {"nontrivial": False, "mismatches": mism, "violations": viol, "tags": tags}
-    nS, nE = len(states), len(lr["rates"])
-    for k in set(meta["kinds"]):
-        tags.append("rate:" + k)
-    for r in set(meta["routes"]):
-        tags.append("route:" + r)
-    tags.append("nS=%d" % nS); tags.append("nE=%d" % nE)
-    if meta["odes"]: tags.append("has_ode")
-    if meta["derived"]: tags.append("has_derived")
-    if any(":" in str(x) for x in (spec["state"].get("list") or [spec["state"].get("str")])): tags.append("range_names")
-    tags.append("backend:" + case.get("backend", "lambda"))
-
-    ode_s = list(model.get_ode_eqn())
-    V_s = model.get_StateChangeMatrix()
-    a_s = list(model.get_EventRateVector())
-    p_s = list(model.get_pureOdeVector())
-    lam = model.get_ReactantMatrix()
-    # reactant matrix exactly
-    lam_l = lr["react_cols"]
-    lam_p = [[int(lam[i, j]) for i in range(nS)] for j in range(nE)]
-    if lam_p != lam_l:
-        mism.append({"what": "reactant_matrix", "detail": "python %s lean %s" % (lam_p, lam_l)})
-    nonzero = False
-    for pt in case["points"]:
-        env = {k: Fraction(v) for k, v in pt.items()}
-        sym_vs_lean(ode_s, lr["ode"], env, "get_ode_eqn", mism, tags)
-        sym_vs_lean([V_s[i, j] for j in range(nE) for i in range(nS)], [e for col in lr["vmat_cols"] for e in col], env,
-                    "get_StateChangeMatrix", mism, tags)
-        sym_vs_lean(a_s, lr["rates"], env, "get_EventRateVector", mism, tags)
-        sym_vs_lean(p_s, lr["pure"], env, "get_pureOdeVector", mism, tags)
-        # numeric evaluators
-        x = fl(env, states); th = fl(env, params); t = float(env["t"])
+    def __init__(self, case, spec, meta, who="", partner=None, touch_env=None):
+        self.case, self.spec, self.meta, self.who = case, spec, meta, who
+        self.tags, self.mism, self.viol = [], [], []
+        self.kept = Kept()
+        self.steps = []            # dict(label, env, vals (copies), oracle)
+        self.nonzero = False
+        self.model = None
+        self.dead = False
+        self.cur = {}
+        backend = case.get("backend", "lambda")
+        n_then = len(spec.get("then", []))
+        staged = (partner is not None and n_then > 0 and backend == "lambda"
+                  and all(o["op"] in pymodel.SETTER for o in spec["then"]))
+        if not staged:
+            self.lr, self.model, self.perr, self.stage = build_both(spec, backend=backend)
+            return
+        # staged construction: constructor keywords only, every evaluator called once (they are compiled now), then
+        # the incremental operations one at a time; after each of them ANOTHER live instance evaluates before this
+        # one does.  The intermediate models are judged against the spec read up to that operation.
+        self.lr = lean_assemble(spec)
+        self.perr, self.stage = None, None
+        self.tags.append("staged_build")
         try:
-            model.parameters = th
-            f_n = np.asarray(model.ode(x, t), float).ravel()
-            V_n = np.asarray(model.vMat(x, t), float).reshape(nS, nE) if nE > 0 else np.zeros((nS, 0))
-            a_n = np.asarray(model.eventRateVector(x, t), float).ravel() if nE > 0 else np.zeros(0)
-            p_n = np.asarray(model.pureOdeVector(x, t), float).ravel()
+            self.model = pymodel.build(spec, backend=backend, upto=0)
+            self.touch(touch_env, 0)
+            for k in range(n_then):
+                pymodel.apply_then(self.model, spec["then"][k])
+                partner.touch(touch_env, None)
+                self.touch(touch_env, k + 1)
+            for g in ("get_ode_eqn", "get_StateChangeMatrix", "get_EventRateVector", "get_pureOdeVector"):
+                getattr(self.model, g)()
+        except Exception as exc:
+            self.perr, self.stage = pymodel.err_enum(exc), "build"
+            self.model = None
+
+    def touch(self, env, upto):
+        """call every evaluator at `env` without keeping anything; ode is judged against the (prefix of the) spec"""
+        if self.model is None or env is None:
+            return
+        m = self.model
+        states = [str(s) for s in m.state_list]; params = [str(p) for p in m.param_list]
+        x = fl(env, states); t = float(env["t"])
+        try:
+            m.parameters = fl(env, params)
+            self.cur = {p: env[p] for p in params}
+        except Exception:
+            self.tags.append("touch:parameters-not-settable")
+            return
+        got = {}
+        for name in EVALUATORS:
+            try:
+                got[name] = np.array(getattr(m, name)(x, t), dtype=float)
+            except Exception as exc:
+                self.tags.append("touch:%s-raised" % name)
+        if "ode" not in got:
+            return
+        try:
+            if upto is None:
+                f_o = net_oracle(self.meta, self.spec, env)[0]
+            else:
+                f_o = spec_oracle(self.spec, states, env, upto=upto)[0]
+        except E.Undefined:
+            return
+        if not vec_close(got["ode"].ravel(), f_o):
+            what = ("ode(x,t) of the model as built so far (constructor + %d incremental operations) != sum rate*net + explicit terms"
+                    % upto) if upto is not None else "ode(x,t) changed after another instance was extended"
+            self.viol.append({"what": self.who + what, "signature": "staged:" + sig(self.meta, "ode"),
+                              "detail": "ode=%s expected=%s at %s" % (got["ode"].ravel().tolist(), [mpf_s(v) for v in f_o],
+                                                                      {k: str(v) for k, v in env.items()})})
+
+    # -- symbolic objects and names ---------------------------------------------------------------------
+    def open(self):
+        """names, symbolic objects, reactant matrix; returns False when nothing more can be compared"""
+        lr, model, spec, meta, case = self.lr, self.model, self.spec, self.meta, self.case
+        tags, mism, viol = self.tags, self.mism, self.viol
+        mism += compare_errors(lr, self.perr, self.stage)
+        tags.append("malformed:%s" % case["malformed"] if case.get("malformed") else "wellformed")
+        if self.perr is not None or lr.get("err") is not None:
+            tags.append("rejected:%s" % (self.perr or lr.get("err")))
+            if not case.get("malformed") and self.perr is not None:
+                # a well-formed definition the real code rejects: the property cannot hold for it
+                viol.append({"what": "well-formed model definition rejected with %s at %s" % (self.perr, self.stage),
+                             "signature": "reject:%s:%s:%s" % (self.perr, self.stage, ",".join(sorted(set(meta["routes"])))),
+                             "detail": json.dumps(spec)[:1500]})
+            self.dead = True
+            self.result = {"nontrivial": case.get("malformed") is not None, "mismatches": mism, "violations": viol, "tags": tags,
+                           "sample": {"malformed": case.get("malformed"), "python": self.perr, "lean": lr.get("err")}}
+            return False
+        if case.get("malformed"):
+            tags.append("malformed_accepted")
+            self.dead = True
+            self.result = {"nontrivial": True, "mismatches": mism, "violations": viol, "tags": tags}
+            return False
+        self.states = states = [str(s) for s in model.state_list]
+        self.params = params = [str(p) for p in model.param_list]
+        if states != lr["states"] or params != lr["params"]:
+            mism.append({"what": "names", "detail": "python %s %s lean %s %s" % (states, params, lr["states"], lr["params"])})
+            self.dead = True
+            self.result = {"nontrivial": False, "mismatches": mism, "violations": viol, "tags": tags}
+            return False
+        if states != meta["states"] or params != meta["params"]:
+            viol.append({"what": "declared names / order not kept: states %s params %s, declared %s %s" % (states, params, meta["states"], meta["params"]),
+                         "signature": "declared-names", "detail": json.dumps(spec)[:800]})
+            self.dead = True
+            self.result = {"nontrivial": False, "mismatches": mism, "violations": viol, "tags": tags}
+            return False
+        self.nS, self.nE = nS, nE = len(states), len(lr["rates"])
+        for k in set(meta["kinds"]):
+            tags.append("rate:" + k)
+        for r in set(meta["routes"]):
+            tags.append("route:" + r)
+        tags.append("nS=%d" % nS); tags.append("nE=%d" % nE)
+        if meta["odes"]: tags.append("has_ode")
+        if meta["derived"]: tags.append("has_derived")
+        if any(":" in str(x) for x in (spec["state"].get("list") or [spec["state"].get("str")])): tags.append("range_names")
+        tags.append("backend:" + case.get("backend", "lambda"))
+        self.symbolic()
+        lam = model.get_ReactantMatrix()
+        lam_l = lr["react_cols"]
+        lam_p = [[int(lam[i, j]) for i in range(nS)] for j in range(nE)]
+        if lam_p != lam_l:
+            mism.append({"what": "reactant_matrix", "detail": "python %s lean %s" % (lam_p, lam_l)})
+        return True
+
+    def symbolic(self):
+        model = self.model
+        self.ode_s = list(model.get_ode_eqn())
+        self.V_s = model.get_StateChangeMatrix()
+        self.a_s = list(model.get_EventRateVector())
+        self.p_s = list(model.get_pureOdeVector())
+
+    def sym_check(self, env):
+        lr, nS, nE = self.lr, self.nS, self.nE
+        sym_vs_lean(self.ode_s, lr["ode"], env, "get_ode_eqn", self.mism, self.tags)
+        sym_vs_lean([self.V_s[i, j] for j in range(nE) for i in range(nS)], [e for col in lr["vmat_cols"] for e in col], env,
+                    "get_StateChangeMatrix", self.mism, self.tags)
+        sym_vs_lean(self.a_s, lr["rates"], env, "get_EventRateVector", self.mism, self.tags)
+        sym_vs_lean(self.p_s, lr["pure"], env, "get_pureOdeVector", self.mism, self.tags)
+
+    # -- one evaluation of every evaluator ---------------------------------------------------------------
+    def step(self, env, form, label, symbolic=False, set_params=True):
+        """returns True when the step was judged clean"""
+        if self.dead:
+            return False
+        lr, model, meta, spec = self.lr, self.model, self.meta, self.spec
+        nS, nE, states, params = self.nS, self.nE, self.states, self.params
+        mism, viol, tags = self.mism, self.viol, self.tags
+        n0 = len(mism) + len(viol)
+        pt = {k: str(v) for k, v in env.items()}
+        if symbolic:
+            self.sym_check(env)
+        x = as_x(env, states, form["x"]); t = as_t(env, form["t"])
+        tags.append("x:" + form["x"]); tags.append("t:" + form["t"])
+        try:
+            if set_params:
+                th = as_params(env, params, form["p"])
+                fth = freeze(th)
+                model.parameters = th
+                self.cur = {p: env[p] for p in params}
+                tags.append("p:" + form["p"])
+                if freeze(th) != fth:
+                    # a pure side effect (the values judged below decide): tagged, not a violation of this property
+                    tags.append("side-effect:parameters-object-modified:" + form["p"])
+            vals = {}
+            vals["ode"] = self.kept.call(model, "ode", x, t, label).ravel()
+            vals["vMat"] = self.kept.call(model, "vMat", x, t, label).reshape(nS, nE) if nE > 0 else np.zeros((nS, 0))
+            vals["eventRateVector"] = self.kept.call(model, "eventRateVector", x, t, label).ravel() if nE > 0 else np.zeros(0)
+            vals["pureOdeVector"] = self.kept.call(model, "pureOdeVector", x, t, label).ravel()
         except Exception as exc:
             if nE == 0:
                 tags.append("no_events_evaluator_error")
-                f_n = None
-            else:
-                viol.append({"what": "evaluator raised %s: %s" % (type(exc).__name__, str(exc)[:200]),
-                             "signature": "evaluator-raise:%s" % type(exc).__name__, "detail": json.dumps(pt)})
-                break
-        if f_n is None:
-            continue
+                return True
+            viol.append({"what": self.who + "evaluator raised %s: %s" % (type(exc).__name__, str(exc)[:200]),
+                         "signature": "evaluator-raise:%s:x=%s,t=%s" % (type(exc).__name__, form["x"], form["t"]), "detail": json.dumps(pt)})
+            return False
         try:
-            f_l = [E.ev(e, env) for e in lr["ode"]]
-            V_l = [[E.ev(e, env) for e in col] for col in lr["vmat_cols"]]
-            a_l = [E.ev(e, env) for e in lr["rates"]]
-            p_l = [E.ev(e, env) for e in lr["pure"]]
+            lean = {"ode": [E.ev(e, env) for e in lr["ode"]], "vMat": [[E.ev(e, env) for e in col] for col in lr["vmat_cols"]],
+                    "eventRateVector": [E.ev(e, env) for e in lr["rates"]], "pureOdeVector": [E.ev(e, env) for e in lr["pure"]]}
             f_o, V_o, a_o, p_o = net_oracle(meta, spec, env)
+            if not self.steps:
+                # the two references of the harness (abstract process set / API-level spec) must agree
+                f_s = spec_oracle(spec, states, env)[0] if all(o["op"] in pymodel.SETTER for o in spec.get("then", [])) else f_o
+                if not vec_close(f_s, f_o):
+                    mism.append({"what": "harness_error", "detail": "spec_oracle %s != net_oracle %s" % ([mpf_s(v) for v in f_s], [mpf_s(v) for v in f_o])})
         except E.Undefined:
             tags.append("undefined_point")
-            continue
-        if any(abs(v) > 1e-12 for v in f_l):
-            nonzero = True
-        if not vec_close(f_n, f_l): mism.append({"what": "ode(x,t)", "detail": "python %s lean %s at %s" % (list(f_n), [mpf_s(v) for v in f_l], pt)})
-        if not vec_close(a_n, a_l): mism.append({"what": "eventRateVector(x,t)", "detail": "python %s lean %s" % (list(a_n), [mpf_s(v) for v in a_l])})
-        if not vec_close(p_n, p_l): mism.append({"what": "pureOdeVector(x,t)", "detail": "python %s lean %s" % (list(p_n), [mpf_s(v) for v in p_l])})
+            return True
+        if any(abs(v) > 1e-12 for v in lean["ode"]):
+            self.nonzero = True
+        st = {"label": label, "pt": pt, "vals": vals, "lean": lean, "oracle": (f_o, V_o, a_o, p_o), "first_row": len(self.kept.rows) - 4}
+        self.steps.append(st)
+        self.judge(st, vals, "")
+        return len(mism) + len(viol) == n0
+
+    def keep_params(self, env):
+        """(x, t) of `env` with the parameter values this instance currently holds"""
+        e = dict(env); e.update(self.cur)
+        return e
+
+    def clone(self):
+        """copy.deepcopy of the configured, already evaluated model as one more live instance (same definition, so the
+        same Lean response and the same oracle)"""
+        C = object.__new__(Session)
+        C.__dict__.update(self.__dict__)
+        C.tags, C.mism, C.viol, C.kept, C.steps = [], [], [], Kept(), []
+        C.who = "copy.deepcopy of the model: "
+        try:
+            C.model = copy.deepcopy(self.model)
+            C.symbolic()
+        except Exception as exc:
+            self.tags.append("deepcopy-raised:%s" % type(exc).__name__)
+            return None
+        C.cur = dict(self.cur)
+        return C
+
+    def twins(self, env, label):
+        """the solver-facing twin ode_T(t, x) at a point already judged"""
+        if self.dead or self.mism or self.viol:
+            return
+        try:
+            f_o = net_oracle(self.meta, self.spec, env)[0]
+        except E.Undefined:
+            return
+        try:
+            got = np.array(self.model.ode_T(float(env["t"]), fl(env, self.states)), float).ravel()
+        except Exception as exc:
+            self.viol.append({"what": self.who + "ode_T raised %s: %s" % (type(exc).__name__, str(exc)[:200]), "signature": "evaluator-raise:ode_T:%s" % type(exc).__name__,
+                              "detail": ""})
+            return
+        self.tags.append("ode_T")
+        if not vec_close(got, f_o):
+            self.viol.append({"what": self.who + "[%s] ode_T(t,x) != sum rate*net + explicit terms" % label, "signature": "ode_T:" + sig(self.meta, "ode"),
+                              "detail": "ode_T=%s expected=%s" % (got.tolist(), [mpf_s(v) for v in f_o])})
+
+    def judge(self, st, vals, kind):
+        """`kind` = "" for the copies taken at the time of the call (model comparison + direct oracle),
+        "kept" for the result objects themselves, looked at after all later calls (direct oracle only)"""
+        nS, nE, meta, pt, label = self.nS, self.nE, self.meta, st["pt"], st["label"]
+        mism, viol = self.mism, self.viol
+        f_n, V_n, a_n, p_n = vals["ode"], vals["vMat"], vals["eventRateVector"], vals["pureOdeVector"]
+        f_o, V_o, a_o, p_o = st["oracle"]
+        pre = self.who + ("[%s] " % label) + ("KEPT result, looked at after the later calls: " if kind else "")
+        sg = (lambda w: "kept:" + w) if kind else (lambda w: ("history:" if label in HISTORY_LABELS else "") + w)
         Vn_cols = [[V_n[i, j] for i in range(nS)] for j in range(nE)]
-        if not all(vec_close(c1, c2) for c1, c2 in zip(Vn_cols, V_l)):
-            mism.append({"what": "vMat(x,t)", "detail": "python %s lean %s" % (Vn_cols, [[mpf_s(v) for v in c] for c in V_l])})
+        if not kind:
+            lean = st["lean"]
+            if not vec_close(f_n, lean["ode"]): mism.append({"what": "ode(x,t)", "detail": "python %s lean %s at %s" % (list(f_n), [mpf_s(v) for v in lean["ode"]], pt)})
+            if not vec_close(a_n, lean["eventRateVector"]): mism.append({"what": "eventRateVector(x,t)", "detail": "python %s lean %s" % (list(a_n), [mpf_s(v) for v in lean["eventRateVector"]])})
+            if not vec_close(p_n, lean["pureOdeVector"]): mism.append({"what": "pureOdeVector(x,t)", "detail": "python %s lean %s" % (list(p_n), [mpf_s(v) for v in lean["pureOdeVector"]])})
+            if not all(vec_close(c1, c2) for c1, c2 in zip(Vn_cols, lean["vMat"])):
+                mism.append({"what": "vMat(x,t)", "detail": "python %s lean %s" % (Vn_cols, [[mpf_s(v) for v in c] for c in lean["vMat"]])})
         # direct oracle, no Lean: the property itself
         if not vec_close(f_n, f_o):
-            viol.append({"what": "ode(x,t) != sum rate*net + explicit terms", "signature": sig(meta, "ode"),
+            viol.append({"what": pre + "ode(x,t) != sum rate*net + explicit terms", "signature": sg(sig(meta, "ode")),
                          "detail": "ode=%s expected=%s at %s" % (list(f_n), [mpf_s(v) for v in f_o], pt)})
+        if not vec_close(p_n, p_o):
+            viol.append({"what": pre + "pureOdeVector(x,t) != explicit terms", "signature": sg(sig(meta, "pure")),
+                         "detail": "pure=%s expected=%s at %s" % (list(p_n), [mpf_s(v) for v in p_o], pt)})
         # event order depends on the route (constructor keywords are processed event, transition, birth_death,
         # then add_* calls), so rates and columns are compared as a multiset of (rate, column) pairs
         got = sorted([[float(a_n[j])] + [float(v) for v in Vn_cols[j]] for j in range(nE)])
         exp = sorted([[float(a_o[j])] + [float(v) for v in V_o[j]] for j in range(len(a_o))])
         if not multiset_close(got, exp):
-            viol.append({"what": "(eventRateVector, vMat column) pairs != declared (rate, magnitudes)", "signature": sig(meta, "rates+vmat"),
-                         "detail": "got=%s expected=%s" % (got, exp)})
+            viol.append({"what": pre + "(eventRateVector, vMat column) pairs != declared (rate, magnitudes)", "signature": sg(sig(meta, "rates+vmat")),
+                         "detail": "got=%s expected=%s at %s" % (got, exp, pt)})
         recon = V_n.dot(a_n) + p_n if nE > 0 else p_n
         if not vec_close(f_n, recon, rel=1e-8, abs_=1e-9):
-            viol.append({"what": "ode != vMat . eventRateVector + pureOdeVector", "signature": sig(meta, "recon"),
-                         "detail": "ode=%s V.a+p=%s" % (list(f_n), list(recon))})
-        if viol or mism:
+            viol.append({"what": pre + "ode != vMat . eventRateVector + pureOdeVector", "signature": sg(sig(meta, "recon")),
+                         "detail": "ode=%s V.a+p=%s at %s" % (list(f_n), list(recon), pt)})
+
+    def finish(self):
+        """the kept result objects, after every later call on this and on the other instance"""
+        if self.dead or self.mism or self.viol:
+            return
+        nS, nE = self.nS, self.nE
+        for label, name in self.kept.input_changed:
+            # writing into the caller's state vector / time is a side effect outside this property: tagged only
+            self.tags.append("side-effect:input-modified:%s" % name)
+        changed = self.kept.changed()
+        if changed:
+            self.tags.append("kept_result_changed")
+        for st in self.steps:
+            r0 = st["first_row"]
+            rows = {r["name"]: r for r in self.kept.rows[r0:r0 + 4]} if nE > 0 else {}
+            if set(rows) != set(EVALUATORS):
+                continue
+            raw = {"ode": np.asarray(rows["ode"]["raw"], float).ravel(), "vMat": np.asarray(rows["vMat"]["raw"], float).reshape(nS, nE),
+                   "eventRateVector": np.asarray(rows["eventRateVector"]["raw"], float).ravel(),
+                   "pureOdeVector": np.asarray(rows["pureOdeVector"]["raw"], float).ravel()}
+            self.judge(st, raw, "kept")
+            if self.viol:
+                break
+        if changed and not self.viol:
+            # a kept array was written to by a later call but every kept value still satisfies the oracle: a side effect
+            # (a view of internal state) without a wrong value - tagged, not judged
+            self.tags.append("side-effect:kept-array-rewritten-with-right-values")
+        self.tags.append("kept_judged:%d" % len(self.steps))
+
+    def after_scribble(self, env, form, label):
+        """the caller overwrites the arrays it was given (they are its own), then evaluates again"""
+        if self.dead or self.mism or self.viol:
+            return
+        n = self.kept.scribble()
+        self.tags.append("scribbled" if n else "nothing_to_scribble")
+        self.kept = Kept()
+        self.step(env, form, label)
+
+
+HISTORY_LABELS = ("reassigned", "restored", "after-sibling", "after-copy", "copy-after-original", "after-caller-wrote-into-results")
+
+
+def run_case(case):
+    if case.get("malformed") or not case.get("points"):
+        A = Session(case, case["spec"], case["meta"])
+        A.open()
+        return A.result if A.dead else {"nontrivial": False, "mismatches": A.mism, "violations": A.viol, "tags": A.tags}
+    spec, meta = case["spec"], case["meta"]
+    pts = [{k: Fraction(v) for k, v in p.items()} for p in case["points"]]
+    probe = case.get("probe") or {}
+    forms = probe.get("forms") or [{"x": "list", "t": "float", "p": "list"}] * len(pts)
+    A = Session(case, spec, meta)
+    if not A.open():
+        return A.result
+    ok = True
+    for k, env in enumerate(pts):
+        ok = A.step(env, forms[k], "point%d" % k, symbolic=True)
+        if not ok:
             break
-    return {"nontrivial": bool(nE >= 1 and nonzero), "mismatches": mism, "violations": viol, "tags": tags,
-            "sample": {"spec": spec, "point": case["points"][0] if case["points"] else None}}
+    B = None
+    if ok and probe.get("big") and A.nE > 0:
+        # populations of 1e4..1e6 with an integer dtype against the same numbers as floats (see common.dtype_probe)
+        envb = {k: Fraction(v) for k, v in probe["big"]["point"].items()}
+        v_, tg_ = dtype_probe(A.model, EVALUATORS, A.states, A.params, envb, probe["big"]["x"])
+        A.viol += v_; A.tags += tg_
+        A.cur = {p: envb[p] for p in A.params}
+        ok = not A.viol
+    if ok and probe and len(pts) >= 2:
+        # history on one instance: same (x, t) as point 0 with the parameter values of point 1, then the first values again
+        env_r = dict(pts[0]); env_r.update({p: pts[1][p] for p in A.params})
+        fr = dict(forms[0], p=probe.get("reassign_form", "list"))
+        ok = A.step(env_r, fr, "reassigned") and A.step(pts[0], dict(forms[0], p=forms[1]["p"]), "restored")
+    if ok and probe.get("sibling"):
+        # a second live instance under the same names (declaration orders permuted, derived parameter redefined),
+        # constructed in stages with the first instance evaluating in between, then both evaluated alternately
+        sb = probe["sibling"]
+        s2, m2, changed = gen.sibling_spec(spec, meta, state_rev=sb.get("state_rev", True), param_perm=sb.get("param_perm"),
+                                           derived_bump=sb.get("derived_bump", True), last_event_incremental=sb.get("last_event_incremental", False))
+        if changed or s2.get("then"):
+            A.tags.append("sibling_checked")
+            for c in changed:
+                A.tags.append("sibling:" + c)
+            B = Session(case, s2, m2, who="second model with the same names: ", partner=A, touch_env=pts[0])
+            if B.open():
+                okB = B.step(pts[0], forms[0], "point0", symbolic=True)
+                # the first instance again, WITHOUT touching its parameters (they are still those of point 0)
+                okA = A.step(A.keep_params(pts[1]), forms[1], "after-sibling", set_params=False) if okB else False
+                if okA and okB:
+                    B.step(pts[1], forms[1], "point1") and A.step(pts[2 % len(pts)], forms[2 % len(pts)], "after-sibling")
+    C = None
+    if ok and probe and not (A.mism or A.viol) and (B is None or not (B.mism or B.viol)):
+        # a deep copy of the evaluated model is one more live instance: it gets other parameter values, the original is
+        # evaluated again without being touched, and the other way round
+        A.twins(A.keep_params(pts[1]), "twin")
+        C = A.clone()
+        if C is not None:
+            A.tags.append("deepcopy_checked")
+            e2 = dict(pts[1]); e2.update({p: pts[2 % len(pts)][p] for p in A.params})
+            C.step(e2, forms[1], "copy-point1") and A.step(A.keep_params(pts[0]), forms[0], "after-copy", set_params=False) \
+                and C.step(C.keep_params(pts[0]), forms[0], "copy-after-original", set_params=False)
+    A.finish()
+    if B is not None and not B.dead:
+        B.finish()
+    if C is not None:
+        C.finish()
+        A.viol += [dict(v, signature="deepcopy:" + v.get("signature", "")) for v in C.viol]
+        A.mism += [dict(m_, what="deepcopy:" + m_["what"]) for m_ in C.mism]
+    if not (A.mism or A.viol) and (B is None or not (B.mism or B.viol)):
+        A.after_scribble(pts[1 % len(pts)], forms[1 % len(pts)], "after-caller-wrote-into-results")
+    r = {"nontrivial": bool(A.nE >= 1 and A.nonzero), "mismatches": A.mism, "violations": A.viol, "tags": A.tags,
+         "sample": {"spec": spec, "point": case["points"][0] if case["points"] else None}}
+    if B is not None:
+        for v in B.viol:
+            v = dict(v); v["signature"] = "sibling:" + v.get("signature", "")
+            r["violations"].append(v)
+        for m_ in B.mism:
+            r["mismatches"].append(dict(m_, what="sibling:" + m_["what"]))
+        r["tags"] += [tg for tg in B.tags if tg.startswith(("staged", "touch", "kept", "x:", "t:", "p:"))]
+        if B.viol or B.mism:
+            r["sample"] = {"first": spec, "second": B.spec}
+    return r
 
 
 def sig(meta, what):
-    routes = set(meta["routes"])
-    if "legacy" in routes and any(tr["mag"] != ["num", "1"] for p, r in zip(meta["procs"], meta["routes"]) if r == "legacy" for tr in p["transitions"]):
-        return "legacy-route-drops-magnitude"
-    return "%s:routes=%s" % (what, ",".join(sorted(routes)))
+    return "%s:routes=%s" % (what, ",".join(sorted(set(meta["routes"]))))
